@@ -809,7 +809,7 @@ def cross_check_spec(run, cases):
 
 def correspond(run):
     quick = run.tier == "quick"
-    ngr, nsq = (130, 70) if quick else (1100, 500)
+    ngr, nsq = (130, 70) if quick else (3000, 1500)
     cases = common.load_corpus(PROP)
     kinds = ["bool", "real", "complex", "vector", "tensor"]
     cases += [gen_gr_case(run.rng, big=(i % 5 == 0), kind=(kinds[i % 5] if i < 25 else None)) for i in range(ngr)]
